@@ -1234,6 +1234,7 @@ func (g *gen) chain() *Func {
 	b.I(get(0))
 	cur := start
 	exact := true
+	tainted := false // cur may be a NaN whose payload and sign the spec leaves open
 	var names []string
 	clean := func(o *OpInfo) bool {
 		return g.cfg.Excluded == nil || !g.cfg.Excluded(o.Name, "any")
@@ -1242,6 +1243,9 @@ func (g *gen) chain() *Func {
 		o := g.pickNumeric("cop", func(o *OpInfo) bool {
 			if o.In[0] != cur || !clean(o) {
 				return false
+			}
+			if tainted && strings.Contains(o.Name, ".reinterpret_f") {
+				return false // would expose the unspecified payload/sign of a computed NaN
 			}
 			// keep chains trap-free: division and float->int truncation only as single instructions
 			return !strings.Contains(o.Name, "div") && !strings.Contains(o.Name, "rem") && !strings.Contains(o.Name, ".trunc_f")
@@ -1257,6 +1261,11 @@ func (g *gen) chain() *Func {
 		names = append(names, o.Name)
 		exact = exact && o.Exact
 		cur = o.Out[0]
+		if cur == 'i' || cur == 'I' {
+			tainted = false
+		} else if !o.Exact {
+			tainted = true
+		}
 	}
 	if len(names) < 2 {
 		return nil
